@@ -228,6 +228,11 @@ func (c *Compressor) compressValue(v float64) (uint64, error) {
 
 	leadingZeros := leardingZeros(xor)
 	trailingZeros := trailingZeros(xor)
+	// The leading-zero count is stored in a 5-bit field: clamp it to 31 so that it
+	// cannot overflow. The remaining zero bits are then written as significant bits.
+	if leadingZeros > 31 {
+		leadingZeros = 31
+	}
 
 	if err := c.bw.writeBit(one); err != nil {
 		log.Errorf("Compressor.compressValue: failed to write one bit. compressor=%+v, bitWriter=%+v, err=%v", c, c.bw, err)
